@@ -213,7 +213,7 @@ PROPS["C20"] = dict(
               "BB.Props.C20.forwarded_stamps_nondecreasing", "BB.Props.C20.forwarded_id_of_nondecreasing"],
     corr=[dict(family="attempt", quick=150, thorough=6000, mismatch_is_violation=True, no_shrink=True,
                nontrivial=has("slow_consumer_tick_dropped", "cancel_between_recheck_and_send", "sent_after_cancel", "exit_by_recheck",
-                              "exit_by_ctxdone", "pre_cancelled", "count_reached", "recv_after_cancel", "tiny_rate", "cancel_on_slot_full_path"),
+                              "exit_by_ctxdone", "pre_cancelled", "count_reached", "recv_after_cancel", "tiny_rate", "cancel_on_slot_full_path", "pre_cancelled_err_only_context"),
                rule="attempt: LinearAttempt with count 1-5, rates 0.3-1.2 ms, receiver prompt / slow / absent, cancellation at a PRNG-chosen instant (or before the call, "
                     "or never); hook points at the tick, before and after the context re-check, at the send / full slot and at exit, plus the receiver's events, form a "
                     "log that the Lean transition system must accept (log lag of unlocked events is accounted for by commuting independent steps); checks: values <= count, "
